@@ -193,6 +193,26 @@ Theorem C18_prng_protocol : C18_prng_protocol_full_statement.
 Proof. exact prng_protocol_all. Qed.
 Print Assumptions C18_prng_protocol.
 
+(* ---- waiting is stationary: in every state in which a unit waits for the user (nothing loaded,
+   seed initialised = ready after load, result delivered = ready after req) ANY number of idle cycles
+   leaves every register unchanged and (ready, rand) constant; no internal counter keeps running, so
+   the result does not depend on how long the user idles.  ready = 1 implies such a state. ---- *)
+Theorem C18_prng_waiting_is_stationary :
+  (forall bw k ins m, Forall idle_in ins -> tv_waiting bw k m ->
+     fold_left (m_tv_step bw k) ins m = m /\
+     m_tv_run bw k m ins = repeat (m_tv_out bw k m (0, 0, 0)) (length ins)) /\
+  (forall bw ins m, Forall idle_in ins -> xo_waiting bw m ->
+     fold_left (m_xo_step bw) ins m = m /\
+     m_xo_run bw m ins = repeat (m_xo_out bw m (0, 0, 0)) (length ins)) /\
+  (forall bw ins lfsr, Forall idle_in ins ->
+     fold_left (m_lfsr_step bw) ins lfsr = lfsr /\
+     m_lfsr_run bw lfsr ins = repeat (m_lfsr_out bw lfsr) (length ins)) /\
+  (forall bw k m, fst (m_tv_out bw k m (0, 0, 0)) = 1 -> tv_waiting bw k m).
+Proof.
+  exact (conj tv_waiting_stationary (conj xo_waiting_stationary (conj lfsr_idle_stationary tv_ready_is_waiting))).
+Qed.
+Print Assumptions C18_prng_waiting_is_stationary.
+
 Definition tv_seed : Z := 0x0100000000000000000000000000000000000000.
 Definition tv_sched : list (Z * Z * Z) :=
   (1, 0, tv_seed) :: repeat (0, 0, 0) 19 ++ (0, 1, 0) :: repeat (0, 0, 0) 3.
